@@ -2780,7 +2780,7 @@ func parseInflexibleBreadth(token Token) pr.DimOrS {
 
 // Parse “track-breadth“.
 func parseTrackBreadth(token Token) pr.DimOrS {
-	if dim, ok := token.(pa.Dimension); ok && dim.ValueF >= 0 && dim.Unit == "fr" {
+	if dim, ok := token.(pa.Dimension); ok && dim.ValueF >= 0 && utils.AsciiLower(dim.Unit) == "fr" {
 		return pr.NewDim(pr.Float(dim.ValueF), pr.Fr).ToValue()
 	}
 	return parseInflexibleBreadth(token)
